@@ -6,11 +6,11 @@
 #include <cstdio>
 #if defined(CAPI_PURE)
 extern "C" {
-#include "../../repo/c_api/pure_c/posit/posit8.c"
-#include "../../repo/c_api/pure_c/posit/posit8_1.c"
+#include <c_api/pure_c/posit/posit8.c>
+#include <c_api/pure_c/posit/posit8_1.c>
 }
 #elif defined(CAPI_SHIM)
-#include "../../repo/c_api/shim/posit/posit_c_api.cpp"
+#include <c_api/shim/posit/posit_c_api.cpp>
 #elif defined(CAPI_GENERIC)
 // reference build: the same driver over the generic C++ posit<n,es> (CAPI_GENERIC = 1: the pure C set, 2: the shim set)
 #include <universal/number/posit/posit.hpp>
